@@ -88,7 +88,7 @@ def extract(config="default", repo=REPO, verbose=False):
         exp = EXPECTED if config not in ("nodefault", "aarch64") else ["lightmotif.rlib"]
         if os.path.isdir(out) and all(os.path.exists(os.path.join(out, e + ".json")) for e in exp):
             return out, th, False
-        tmp = out + ".tmp"
+        tmp = out + f".tmp-{worker}-{os.getpid()}"     # two workers can extract the same tree hash at the same time
         shutil.rmtree(tmp, ignore_errors=True)
         os.makedirs(tmp)
         target = os.path.join(CACHE, "target-" + config + (("-" + worker) if worker else ""))
@@ -121,8 +121,11 @@ def extract(config="default", repo=REPO, verbose=False):
         missing = [e for e in exp if not os.path.exists(os.path.join(tmp, e + ".json"))]
         if missing:
             raise ExtractError("driver produced no fact file for: " + ", ".join(missing))
-        shutil.rmtree(out, ignore_errors=True)
-        os.rename(tmp, out)
+        if os.path.isdir(out) and all(os.path.exists(os.path.join(out, e + ".json")) for e in exp):
+            shutil.rmtree(tmp, ignore_errors=True)      # another worker finished the same tree first; its copy may be in use
+        else:
+            shutil.rmtree(out, ignore_errors=True)
+            os.rename(tmp, out)
         # prune old fact dirs (keep the most recent ones; more when several workers share the cache, and never one younger than 15 minutes)
         keep = int(os.environ.get("LM_CACHE_KEEP", "8") or 8)
         base = os.path.join(CACHE, "facts")
